@@ -95,3 +95,23 @@ Example no_progress_no_termination :
   make_all_pages nat Nat.eqb (greedy [30; 120; 10] 100 false) no_footnotes (fun _ => false)
     2000 (initial_page_maker nat BAny true) 0 0 0 [] = OutOfFuel.
 Proof. vm_compute. reflexivity. Qed.
+
+(* a document of one page whose single footnote does not fit the footnote area
+   of that page (it is reported), and never fits the area of a later page *)
+Definition one_reported_footnote (r : option nat) (fn : nat) : (option nat * brk * nat) * (bool * bool) :=
+  ((None, BAny, 1), (false, false)).
+
+(* with the `i != 0` guard the footnote is forced onto the second page *)
+Example reported_footnote_run :
+  fmap_pages (make_all_pages nat Nat.eqb one_reported_footnote
+    (blank_of_report_loop true (fun _ _ => true) (fun _ => (false, false))) (fun _ => false)
+    50 (initial_page_maker nat BAny true) 0 0 0 [])
+  = Some [PContent; PBlank].
+Proof. vm_compute. reflexivity. Qed.
+
+(* WITHOUT the guard every new page reports it again: an endless page loop *)
+Example unguarded_report_loop_no_termination :
+  make_all_pages nat Nat.eqb one_reported_footnote
+    (blank_of_report_loop false (fun _ _ => true) (fun _ => (false, false))) (fun _ => false)
+    2000 (initial_page_maker nat BAny true) 0 0 0 [] = OutOfFuel.
+Proof. vm_compute. reflexivity. Qed.
